@@ -7,6 +7,7 @@ package otter
 // spec/LoadHist.tla.
 
 import (
+	"sync/atomic"
 	"strings"
 	"bufio"
 	"context"
@@ -34,6 +35,7 @@ type ldScenario struct {
 	Script     []verifkit.Step `json:"script"`
 	Refresh    int      `json:"refresh"`    // 1 = refresh configured (RefreshWriting 1h on a frozen clock)
 	BulkKeys   int      `json:"bulkkeys"`   // keys requested by a BulkGet caller: 1 = {1}, otherwise {1,2}
+	HGate      int      `json:"hgate"`      // 1 = the atomic deletion handler is a gate ("h.atomic"): user code inside the table computation
 }
 
 type ldEvent struct {
@@ -61,7 +63,7 @@ type ldResult struct {
 var ldPoints = map[string]bool{
 	"get.afterLookup": true, "ld.enter": true, "ld.exit": true, "ld.beforeInstall": true, "ld.afterInstall": true,
 	"set.afterCompute": true, "inv.afterCompute": true, "cmp.afterCompute": true, "ev.beforeDelete": true, "db.enter": true,
-	"cp.lock": true,
+	"cp.lock": true, "h.atomic": true,
 }
 
 var errLdScripted = errors.New("verif: scripted failure")
@@ -128,14 +130,22 @@ func runLoadScenario(sc ldScenario) ldResult {
 		Logger:      nopLogger{},
 		OnAtomicDeletion: func(e DeletionEvent[int, int]) {
 			note(ldEvent{T: "A", K: e.Key, V: e.Value, Err: e.Cause.String()})
+			if sc.HGate == 1 {
+				// the handler runs inside the key's table computation: the removal is published only after it returns
+				s.Point("h.atomic", 0)
+				note(ldEvent{T: "hret", K: e.Key, V: e.Value, Err: e.Cause.String()})
+			}
 		},
 	}
 	if sc.Refresh == 1 {
 		o.RefreshCalculator = RefreshWriting[int, int](time.Hour)
 	}
 	// asynchronous like the default executor, but a panicking reload must not take the test process down
+	var execN atomic.Int64
 	o.Executor = func(fn func()) {
+		execN.Add(1)
 		go func() {
+			defer execN.Add(-1)
 			defer func() { _ = recover() }()
 			fn()
 		}()
@@ -145,6 +155,10 @@ func runLoadScenario(sc ldScenario) ldResult {
 	if sc.Preload == 1 {
 		c.Set(1, 50)
 		c.CleanUp()
+		// the goroutines of the preload must be gone before the scheduler starts adopting (names x1, x2, ... are scripted)
+		for i := 0; i < 2000 && execN.Load() != 0; i++ {
+			time.Sleep(100 * time.Microsecond)
+		}
 	}
 	runs := 0
 	rng := rand.New(rand.NewSource(sc.Seed * 977))
